@@ -240,7 +240,10 @@ struct Encoding<Table, EnableIfHasEntryList<Table>> : EncodingIO<Table> {
         return status;
 
       // Default construct the entry;
-      *entry = T{};
+      // Construct the value in place: assigning T{} would select the converting
+      // Optional<U> assignment when T is itself an Optional and leave the entry
+      // empty.
+      *entry = Entry<T, Id, ActiveEntry>{InPlace{}};
 
       // Use a BoundedReader to handle any padding that might follow the
       // value and catch invalid sizes while decoding inside the binary
